@@ -42,3 +42,206 @@ def patched(obj, name, value):
         yield
     finally:
         setattr(obj, name, old)
+
+
+# ======================================================================================================================
+# API-agnostic scripting: every public function of the `random` module is interpreted as a sequence of PRIMITIVE events
+#   U(n)      uniform choice among n alternatives            -> on_uniform(n, ctx)      -> index in [0, n)
+#   W(w)      choice with weights w                          -> on_weighted(w, ctx)     -> index with w[index] > 0
+#   P(items)  uniformly random permutation of a list         -> on_permutation(items, ctx) -> permuted copy
+#   F         uniform number in [0, 1)                       -> on_float(ctx)           -> number in [0, 1)
+# so that a harness scripts WHAT is drawn and not THROUGH WHICH function it is drawn: `random.shuffle(x)` and
+# `x = random.sample(x, len(x))` are the same event P(x); `randrange(n)` in a loop and `choices(range(n), k=m)` are the same m
+# events U(n).  A harness subclasses SemanticRandom and overrides the four handlers; whatever it does not script is recorded
+# in `unexpected` and served from a private seeded generator, so the run stays deterministic and the caller can see that the
+# code drew randomness the script (and therefore the model) does not account for.
+class SemanticRandom:
+    PUBLIC = ["random", "uniform", "randrange", "randint", "choice", "shuffle", "sample", "choices", "getrandbits",
+              "randbytes", "triangular", "gauss", "normalvariate", "lognormvariate", "expovariate", "vonmisesvariate",
+              "gammavariate", "betavariate", "paretovariate", "weibullvariate", "binomialvariate", "seed", "getstate", "setstate"]
+
+    def __init__(self, fallback_seed=987654321):
+        self.fallback = random.Random(fallback_seed)
+        self.unexpected = []          # ctx of every primitive event served by the fallback
+        self.events = []              # (kind, size, api, caller function)
+
+    # ---- handlers (override)
+    def on_uniform(self, n, ctx):
+        self.unexpected.append(ctx)
+        return self.fallback.randrange(n)
+
+    def on_weighted(self, weights, ctx):
+        self.unexpected.append(ctx)
+        return self.fallback.choices(range(len(weights)), weights=[float(w) for w in weights])[0]
+
+    def on_permutation(self, items, ctx):
+        self.unexpected.append(ctx)
+        y = list(items)
+        self.fallback.shuffle(y)
+        return y
+
+    def on_float(self, ctx):
+        self.unexpected.append(ctx)
+        return self.fallback.random()
+
+    # ---- plumbing
+    def _ctx(self, api, depth=2):
+        import sys
+        f = sys._getframe(depth)
+        here = __file__
+        while f is not None and (f.f_code.co_filename == here or f.f_code.co_filename.endswith("random.py")):
+            f = f.f_back
+        caller = (f.f_code.co_filename.rsplit("/", 1)[-1], f.f_code.co_name) if f is not None else ("?", "?")
+        return {"api": api, "file": caller[0], "func": caller[1], "self": f.f_locals.get("self") if f is not None else None}
+
+    def _u(self, n, api):
+        ctx = self._ctx(api, 3)
+        v = self.on_uniform(n, ctx)
+        if not (isinstance(v, int) and 0 <= v < n):
+            raise ValueError(f"scripted uniform index {v!r} out of range for {n} alternatives")
+        self.events.append(("U", n, api, ctx["func"]))
+        return v
+
+    # ---- the `random` API
+    def random(self):
+        ctx = self._ctx("random")
+        self.events.append(("F", 0, "random", ctx["func"]))
+        return self.on_float(ctx)
+
+    def uniform(self, a, b):
+        ctx = self._ctx("uniform")
+        self.events.append(("F", 0, "uniform", ctx["func"]))
+        return a + (b - a) * self.on_float(ctx)
+
+    def randrange(self, start, stop=None, step=1):
+        if stop is None:
+            start, stop = 0, start
+        n = len(range(start, stop, step))
+        if n <= 0:
+            raise ValueError(f"empty range in randrange({start}, {stop}, {step})")
+        return start + step * self._u(n, "randrange")
+
+    def randint(self, a, b):
+        return self.randrange(a, b + 1)
+
+    def getrandbits(self, k):
+        if k < 0:
+            raise ValueError("number of bits must be non-negative")
+        return self._u(1 << k, "getrandbits") if k else 0
+
+    def choice(self, seq):
+        if not len(seq):
+            raise IndexError("Cannot choose from an empty sequence")
+        return seq[self._u(len(seq), "choice")]
+
+    def shuffle(self, x):
+        ctx = self._ctx("shuffle")
+        y = self.on_permutation(list(x), ctx)
+        if sorted(map(repr, y)) != sorted(map(repr, x)):
+            raise ValueError("scripted permutation is not a permutation of the list")
+        self.events.append(("P", len(y), "shuffle", ctx["func"]))
+        x[:] = y
+
+    def sample(self, population, k, *, counts=None):
+        if counts is not None:
+            population = [p for p, c in zip(population, counts) for _ in range(c)]
+        pop = list(population)
+        if not 0 <= k <= len(pop):
+            raise ValueError("Sample larger than population or is negative")
+        if k == len(pop):
+            ctx = self._ctx("sample")
+            y = self.on_permutation(pop, ctx)
+            self.events.append(("P", len(y), "sample", ctx["func"]))
+            return y
+        out = []
+        for _ in range(k):
+            out.append(pop.pop(self._u(len(pop), "sample")))
+        return out
+
+    def choices(self, population, weights=None, *, cum_weights=None, k=1):
+        pop = list(population)
+        n = len(pop)
+        if cum_weights is not None:
+            if weights is not None:
+                raise TypeError("Cannot specify both weights and cumulative weights")
+            cw = list(cum_weights)
+            weights = [cw[0]] + [b - a for a, b in zip(cw, cw[1:])] if cw else []
+        if weights is None:
+            if not n and k:
+                raise IndexError("list index out of range")
+            return [pop[self._u(n, "choices")] for _ in range(k)]
+        w = list(weights)
+        if len(w) != n:
+            raise ValueError("The number of weights does not match the population")
+        total = sum(w) if w else 0
+        if not w and k:
+            raise IndexError("list index out of range")
+        if w and total <= 0:
+            raise ValueError("Total of weights must be greater than zero")
+        out = []
+        for t in range(k):
+            ctx = self._ctx("choices")
+            ctx.update(population=pop, k=k, t=t)
+            i = self.on_weighted(w, ctx)
+            if not (isinstance(i, int) and 0 <= i < n):
+                raise ValueError(f"scripted weighted index {i!r} out of range")
+            self.events.append(("W", n, "choices", ctx["func"]))
+            out.append(pop[i])
+        return out
+
+    def __getattr__(self, name):          # anything else of the random API: unscripted
+        if name in SemanticRandom.PUBLIC:
+            def f(*a, **kw):
+                self.unexpected.append({"api": name, "file": "?", "func": "?"})
+                return getattr(self.fallback, name)(*a, **kw)
+            return f
+        raise AttributeError(name)
+
+    def summary(self):
+        """what was drawn, through which function — for evidence and for the model/implementation comparison"""
+        return {"unexpected": [f"{c['api']} in {c['file']}:{c['func']}" for c in self.unexpected[:5]],
+                "n_unexpected": len(self.unexpected)}
+
+
+_ORIG = {name: getattr(random, name) for name in SemanticRandom.PUBLIC if hasattr(random, name)}
+_TARGETS = {"key": None, "list": []}
+
+
+def _targets(extra_modules):
+    """(module, global name, random-function name) for every global of an imported gcmpy module that IS a function of the
+    `random` module (`from random import shuffle`); cached until another gcmpy module gets imported"""
+    import sys
+    names = tuple(sorted(k for k in sys.modules if k == "gcmpy" or k.startswith("gcmpy."))) + tuple(id(m) for m in extra_modules)
+    if _TARGETS["key"] != names:
+        out = []
+        mods = [sys.modules[k] for k in names if isinstance(k, str) and sys.modules.get(k) is not None] + list(extra_modules)
+        for m in mods:
+            for gname, val in list(vars(m).items()):
+                if not callable(val):
+                    continue
+                for name, orig in _ORIG.items():
+                    if val is orig or (getattr(val, "__self__", None) is random._inst and getattr(val, "__name__", None) == name):
+                        out.append((m, gname, name))
+                        break
+        _TARGETS["key"], _TARGETS["list"] = names, out
+    return _TARGETS["list"]
+
+
+@contextlib.contextmanager
+def installed(sem, extra_modules=()):
+    """route every use of the `random` module through `sem`: the module's public functions, and every global of an imported
+    gcmpy module (or of `extra_modules`) that is one of those functions (`from random import shuffle`)"""
+    if getattr(random, "shuffle") is not _ORIG["shuffle"]:
+        raise RuntimeError("installed() is not re-entrant")
+    saved = []
+    try:
+        for m, gname, name in _targets(extra_modules):
+            saved.append((m, gname, getattr(m, gname)))
+            setattr(m, gname, getattr(sem, name))
+        for name, orig in _ORIG.items():
+            saved.append((random, name, orig))
+            setattr(random, name, getattr(sem, name))
+        yield sem
+    finally:
+        for m, gname, val in reversed(saved):
+            setattr(m, gname, val)
